@@ -3,11 +3,12 @@ evaluates only its own property's clauses; everything else is adopted."""
 from . import bootstrap as B
 from .gen import base_cfg, swarm_weights
 from .ops import KINDS, _MISSING
-from .world import (CH, PA, NS, FI, RG, ASPECT_NAMES, FIELD_NAMES, F_ID, F_NAME, F_ATTRS)
+from .world import (CH, PA, NS, FI, RG, NO, ASPECT_NAMES, FIELD_NAMES, F_ID, F_NAME, F_ATTRS)
 
 Node = B.Node
 _PRE = ("<pre>",)
 ALL = (CH, PA, NS, FI, RG)
+ALL_RO = (CH, PA, NS, FI, RG, NO)    # read-only operations must not even reorder prefixes
 
 
 class Violation:
@@ -143,6 +144,14 @@ class Edits(Profile):
     fault_kinds = ("x_remove_nonchild", "x_replace_mismatch", "x_replace_nonchild",
                    "x_shift_nonmember", "x_shift_baddir")
     keep = ("new", "add_child")
+    expected_probes = ("shift_pos_right_edge", "shift_pos_left_edge", "shift_sib_right_edge", "shift_sib_left_edge",
+                       "shift_pos_right_inner", "shift_pos_left_inner", "shift_sib_right_inner", "shift_sib_left_inner",
+                       "replace_delete_old_subtree_gt1", "path_query_needs_backtracking", "path_single_found",
+                       "find_all_descendants_prefilled", "add_child_insert_before_existing",
+                       "failing_remove_nonchild_raised", "failing_replace_mismatch_raised",
+                       "failing_replace_nonchild_raised", "failing_shift_nonmember_raised", "failing_shift_baddir_raised",
+                       "query_find_child", "query_find_all_children", "query_find_descendant", "query_find_all_descendants",
+                       "query_path_single", "query_path_all", "query_ancestry", "query_child_index")
     own_kinds = frozenset(["add_child", "remove_child", "remove_children", "replace_child", "shift", "query",
                            "x_remove_nonchild", "x_replace_mismatch", "x_replace_nonchild",
                            "x_shift_nonmember", "x_shift_baddir"])
@@ -255,6 +264,7 @@ class Edits(Profile):
                 bump(P, "find_all_descendants_prefilled")
         elif k.startswith("x_"):
             bump(P, "failing_" + k[2:] + ("_raised" if not c.out.ok else "_returned"))
+            bump(P, "fault:illegal_edit")
         elif k == "add_child" and c.R["i"] is not None:
             bump(P, "add_child_indexed")
             if c.R["i"] < len(c.pre.cells[c.R["p"]][CH]):
@@ -269,12 +279,17 @@ class Namespaces(Profile):
     fault_kinds = ("remove_child",)      # alias_carry needs detach + re-attach
     keep = ("new", "add_child", "add_ns")
     own_kinds = frozenset(["add_ns", "rm_ns", "add_child", "set_nsmap", "fix_nsmap", "copy"])
+    expected_probes = ("declare_new", "redeclare", "redeclare_new_uri", "redeclare_on_map_shared_with_parent",
+                       "redeclare_on_map_shared_outside_subtree", "remove_present", "remove_absent",
+                       "remove_on_map_shared_outside_subtree", "attach_merges", "attach_merges_into_subtree",
+                       "attach_equal_nonempty_maps", "alias_carry_attach", "fix_nsmap", "set_nsmap",
+                       "fault:alias_carry")
 
     def weights(self, cfg, rng):
         return {"new": 8, "add_child": 14, "add_ns": 16, "rm_ns": 7, "remove_child": 6,
                 "set_nsmap": 1.5, "fix_nsmap": 1.5, "copy": 2, "replace_child": 0.7,
                 "remove_children": 0.5, "set_content": 0.5, "add_attr": 0.5, "shift": 0.5,
-                "delete": 0.3, "query": 0.5}
+                "delete": 0.3, "query": 0.5, "import_xml": 0.7, "restart": 0.3}
 
     def tune(self, cfg, rng):
         cfg["universe"] = rng.choice([2, 3, 4, 5, 6, 8, 12, 25])
@@ -344,6 +359,7 @@ class Namespaces(Profile):
                 sub = set(c.pre.subtree(cc))
                 if any(g == sh[cc] for h, g in enumerate(sh) if h not in sub and g >= 0):
                     bump(P, "alias_carry_attach")
+                    bump(P, "fault:alias_carry")
         elif k == "fix_nsmap":
             bump(P, "fix_nsmap")
         elif k == "set_nsmap":
@@ -378,6 +394,10 @@ class Registry(Profile):
     keep = ("new",)
     own_kinds = frozenset(["new", "copy", "delete", "replace_child", "import_xml", "restart", "prune", "expand",
                            "remove_child", "remove_children"])
+    expected_probes = ("delete_parent_after_child_unregistered", "delete_children", "delete_single", "delete_subtree_gt2",
+                       "replace_delete_old", "replace_keep_old", "copy", "two_ids_same_clock_reading",
+                       "clock_went_backwards_between_ids", "registry_prune_removed", "registry_expand_expanded",
+                       "registry_import", "registry_restart", "fault:partial_unregister", "fault:restart")
 
     def weights(self, cfg, rng):
         return {"new": 12, "copy": 6, "add_child": 10, "remove_child": 4, "remove_children": 1,
@@ -474,9 +494,88 @@ class Registry(Profile):
             bump(P, "replace_delete_old" if c.op["del"] else "replace_keep_old")
         elif k == "copy":
             bump(P, "copy")
+        elif k == "prune" and c.out.ok and c.out.value["pruned"]:
+            bump(P, "registry_prune_removed")
+        elif k == "expand" and c.out.ok and len(c.post.cells) > c.nh:
+            bump(P, "registry_expand_expanded")
+        elif k == "import_xml" and c.out.ok:
+            bump(P, "registry_import")
+        elif k == "restart" and c.out.ok:
+            bump(P, "registry_restart")
+            bump(P, "fault:restart")
+        if k == "delete" and c.exp.judged and c.exp.notes.get("partial"):
+            bump(P, "fault:partial_unregister")
         cl = c.W.clock
         P["two_ids_same_clock_reading"] = cl.same_reading
         P["clock_went_backwards_between_ids"] = cl.backwards
+
+
+def independence(c, prop, pairs, clause, names=("source", "copy")):
+    """Edits whose operands lie on one side of a (source, copy) pair must not be
+    visible on the other side.  Only leakage the caller did not ask for is
+    reported: a pair is retired as soon as an operation has operands on both
+    sides (the caller links the trees), and whatever tree one side gets attached
+    to or receives counts as part of it from then on (attach may legitimately
+    share the parent's namespace map with the child, and that map may already be
+    shared along the whole tree); if the two sides come to overlap that way the
+    pair is retired as well."""
+    k = c.op["k"]
+    if not pairs or not KINDS[k].mutating:
+        return None
+    touched = set(x for x in c.R.values() if isinstance(x, int))
+    if k == "nsmap_item":
+        # Writing through the nsmap property reaches every node that shares the dictionary.
+        # Sharing is legitimate along attach chains and survives detaches, so the by-value
+        # sets above are not enough here.  What is certain: a dictionary made by copy() is
+        # shared only downwards and with nodes attached below copy nodes later, and a copy
+        # node keeps it until it is itself attached somewhere (dirty).
+        n = c.R["n"]
+        for (oset, cset, born, dirty) in pairs:
+            pristine = born - dirty
+            if n not in cset:
+                scope, who = pristine, names[1]
+            elif n in pristine:
+                scope, who = oset - cset, names[0]
+            else:
+                continue
+            v = check_exp(prop, k, ALL, c.exp, c.pre, c.post, scope=scope, exclude_footprint=True)
+            if v:
+                v.clause = clause
+                v.sig = "%s:leaks-into-%s:%s" % (k, who, v.detail.get("aspect"))
+                v.msg = "edit %s on one side changed the %s: %s" % (k, who, v.msg)
+                return v
+        return None
+    keep = []
+    for pr in pairs:
+        oset, cset, born, dirty = pr
+        if touched & oset and touched & cset:
+            continue
+        for side in (oset, cset):
+            if touched & side:
+                for x in touched - side:
+                    # the whole tree x sits in: maps are shared along attach chains
+                    # (parent, siblings, their descendants), not only below x
+                    side.update(c.pre.subtree(c.pre.root_of(x)))
+        if oset & cset:
+            continue
+        if k == "add_child" and c.R["c"] in born:
+            dirty.add(c.R["c"])
+        elif k in ("replace_child", "x_replace_mismatch", "x_replace_nonchild") and c.R.get("new") in born:
+            dirty.add(c.R["new"])
+        elif k in ("set_nsmap", "fix_nsmap"):
+            dirty.update(born & set(c.pre.subtree(c.R["n"])))   # caller-supplied or re-pointed dictionaries
+        keep.append(pr)
+    pairs[:] = keep
+    for (oset, cset, born, dirty) in pairs:
+        for mine, other, who in ((oset, cset, names[1]), (cset, oset, names[0])):
+            if touched & mine and not (touched & other):
+                v = check_exp(prop, k, ALL, c.exp, c.pre, c.post, scope=other, exclude_footprint=True)
+                if v:
+                    v.clause = clause
+                    v.sig = "%s:leaks-into-%s:%s" % (k, who, v.detail.get("aspect"))
+                    v.msg = "edit %s on one side changed the %s: %s" % (k, who, v.msg)
+                    return v
+    return None
 
 
 # ============================================================== C12 copy
@@ -486,12 +585,19 @@ class CopyP(Profile):
     design_ref = "DESIGN.md section 5, C12"
     keep = ("new", "add_child", "copy")
     own_kinds = frozenset(["copy"])
+    expected_probes = ("copy_subtree_1", "copy_subtree_2_5", "copy_subtree_gt5", "copy_of_node_sharing_map", "copy_of_copy",
+                       "edit_copy_side:set_content", "edit_original_side:set_content", "edit_copy_side:attr_item",
+                       "edit_original_side:attr_item", "edit_copy_side:extras_item", "edit_original_side:extras_item",
+                       "edit_copy_side:add_ns", "edit_original_side:add_ns", "edit_copy_side:add_child",
+                       "edit_original_side:add_child", "edit_copy_side:remove_child", "edit_original_side:remove_child",
+                       "edit_copy_side:rm_ns", "edit_original_side:rm_attr", "edit_copy_side:shift")
 
     def weights(self, cfg, rng):
         return {"new": 8, "add_child": 12, "copy": 8, "set_content": 3, "set_tail": 2, "set_prefix": 2,
                 "add_attr": 3, "rm_attr": 2, "attr_item": 3, "extras_item": 3, "add_extras": 2,
                 "add_ns": 4, "rm_ns": 2, "remove_child": 3, "shift": 2, "replace_child": 2,
-                "set_name": 1, "delete": 1, "remove_children": 0.5, "set_nsmap": 0.5, "eml_seed": 1}
+                "set_name": 1, "delete": 1, "remove_children": 0.5, "set_nsmap": 0.5, "eml_seed": 1,
+                "import_xml": 0.7, "nsmap_item": 2}
 
     def start(self, state):
         state["pairs"] = []      # (orig_set, copy_set)
@@ -503,29 +609,8 @@ class CopyP(Profile):
             v = self._copy_step(c)
             if v:
                 return v
-        # F2: independence.  A tree none of whose nodes is an operand of this
-        # step is pure frame; only leakage into it is reported here.
-        if st["pairs"] and KINDS[k].mutating:
-            touched = set(x for x in c.R.values() if isinstance(x, int))
-            # an operation with operands on both sides links the two trees itself:
-            # from then on shared state is the caller's doing, the pair is retired
-            st["pairs"] = [pr for pr in st["pairs"] if not (touched & pr[0] and touched & pr[1])]
-            for (oset, cset) in st["pairs"]:
-                # whatever gets attached to one side has been in contact with it
-                # (attach may share the parent's namespace map with the child)
-                for side in (oset, cset):
-                    if touched & side:
-                        for x in touched - side:
-                            side.update(c.pre.subtree(x))
-                for mine, other, who in ((oset, cset, "copy"), (cset, oset, "original")):
-                    if touched & mine and not (touched & other):
-                        v = check_exp("C12", k, ALL, c.exp, c.pre, c.post, scope=other, exclude_footprint=True)
-                        if v:
-                            v.clause = "F2"
-                            v.sig = "%s:leaks-into-%s:%s" % (k, who, v.detail.get("aspect"))
-                            v.msg = "edit %s on one tree changed the %s: %s" % (k, who, v.msg)
-                            return v
-        return None
+        # F2: independence
+        return independence(c, "C12", st["pairs"], "F2", ("original", "copy"))
 
     def _copy_step(self, c):
         if not c.out.ok:
@@ -580,7 +665,7 @@ class CopyP(Profile):
         for nid, h1, h2 in c.state["collisions"]:
             return Violation("C12", "E1", "copy:id-not-fresh",
                              "copy node h%d carries id %s already used by h%d" % (h2, short(nid), h1))
-        c.state["pairs"].append((set(pre.subtree(orig)), cset))
+        c.state["pairs"].append([set(pre.subtree(orig)), set(cset), frozenset(cset), set()])
         if len(c.state["pairs"]) > 6:
             c.state["pairs"].pop(0)
         return None
@@ -596,12 +681,12 @@ class CopyP(Profile):
                 o = c.R["n"]
                 if any(sh[x] == sh[o] for x in c.pre.subtree(o)[1:]):
                     bump(P, "copy_of_node_sharing_map")
-            for (oset, cset) in st["pairs"][:-1]:
+            for (oset, cset, _b, _d) in st["pairs"][:-1]:
                 if c.R["n"] in cset:
                     bump(P, "copy_of_copy")
         elif st["pairs"] and KINDS[k].mutating:
             touched = set(x for x in c.R.values() if isinstance(x, int))
-            for (oset, cset) in st["pairs"]:
+            for (oset, cset, _b, _d) in st["pairs"]:
                 if touched & cset and not touched & oset:
                     bump(P, "edit_copy_side:" + k)
                 elif touched & oset and not touched & cset:
@@ -615,14 +700,25 @@ class ReadOnly(Profile):
     design_ref = "DESIGN.md section 5, C11"
     keep = ("new", "add_child", "ro", "query")
     own_kinds = frozenset(["ro", "query"])
+    expected_probes = tuple("ro:%s:ok" % f for f in (
+        "validate_tree", "validate_tree_errs", "validate_node", "validate_node_errs", "evaluate_tree", "evaluate_node",
+        "to_json", "mp_to_json", "to_xml", "export_to_xml", "graph", "mp_graph", "str", "repr", "is_allowed_child",
+        "child_insert_index", "is_equal", "find_child", "find_descendant", "path_all", "ancestry")) + (
+        "ro_repeat_compared", "ro:validate_tree:raised", "ro_on_corpus_document", "ro_hostile_text")
 
     def weights(self, cfg, rng):
-        return {"new": 4, "add_child": 6, "ro": 40, "query": 8, "set_content": 4, "set_tail": 1,
-                "add_attr": 2, "add_ns": 1, "set_prefix": 1, "remove_child": 1, "shift": 1,
-                "eml_seed": 3, "import_xml": 1.5, "plant": 1, "copy": 1, "add_extras": 1}
+        return {"new": 5, "add_child": 6, "ro": 40, "query": 8, "set_content": 4, "set_tail": 1,
+                "add_attr": 2, "rm_attr": 2, "add_ns": rng.choice([1, 1, 6]), "set_prefix": 1, "remove_child": 1,
+                "shift": 1, "eml_seed": 3, "import_xml": 1.5, "copy": 1, "add_extras": 1, "delete": 0.7,
+                "set_name": 1, "rm_ns": 0.3, "restart": 0.3}
 
     def tune(self, cfg, rng):
         cfg["alphabets"] = sorted(set(cfg["alphabets"]) | {"xml"}) if rng.random() < 0.7 else cfg["alphabets"]
+        # known element names (some with required attributes, typed content or evaluators) and unknown ones
+        pool = ["eml", "access", "userId", "title", "dataset", "creator", "individualName", "surName", "para",
+                "abstract", "keyword", "pubDate", "onlineUrl", "westBoundingCoordinate", "description", "metadata",
+                "additionalMetadata", "allow", "permission", "taxonId", "bogus", "a"]
+        cfg["names"] = sorted(rng.sample(pool, rng.choice([3, 5, 8])))
 
     def start(self, state):
         state["epoch"] = 0
@@ -643,7 +739,7 @@ class ReadOnly(Profile):
             if any(c.post.cells[h] is not None and c.post.cells[h][RG] for h in extra):
                 return Violation("C11", "F1", "%s:registers-nodes" % what,
                                  "read-only %s left %d new registered node(s) behind" % (what, len(extra)))
-        v = check_exp("C11", what, ALL, c.exp, c.pre, c.post)
+        v = check_exp("C11", what, ALL_RO, c.exp, c.pre, c.post)
         if v:
             v.clause = "F1"
             a = v.detail.get("aspect")
@@ -678,7 +774,17 @@ class ReadOnly(Profile):
             what = c.op.get("q") or c.op.get("f") or c.op["k"]
             bump(P, "ro:" + what + (":ok" if c.out.ok else ":raised"))
             if c.state.get("repeat_hits"):
-                P["ro_repeat_compared"] = c.state["repeat_hits"]
+                P["ro_repeat_compared"] = P.get("ro_repeat_compared", 0) + c.state.pop("repeat_hits")
+            n = c.R.get("n")
+            if n is not None and what in ("export_to_xml", "to_xml", "to_json", "validate_tree", "evaluate_tree"):
+                sub = c.pre.subtree(n)
+                if len(sub) > 200:
+                    bump(P, "ro_on_corpus_document")
+                for h in sub[:50]:
+                    t = c.pre.cells[h][FI][2]
+                    if isinstance(t, str) and any(ch in t for ch in "<&\"'"):
+                        bump(P, "ro_hostile_text")
+                        break
 
 
 PROFILES = {}
